@@ -25,7 +25,7 @@ func TestMain(m *testing.M) { kit.Main(m) }
 var ev = kit.Ev("C04")
 
 func init() {
-	ev.Rule("two real endpoints (client and server Authenticator, both with encryption REQUIRED) talk through a frame-aware man-in-the-middle relay; handshake shapes: no authentication, CLAIMTOBE, TOKEN, FS, resumed session; " +
+	ev.Rule("two real endpoints (client and server Authenticator, both with encryption REQUIRED) talk through a frame-aware man-in-the-middle relay; handshake shapes: no authentication, CLAIMTOBE, TOKEN, FS, resumed session, CLAIMTOBE with encryption only OPTIONAL / PREFERRED (it still ends on); " +
 		"a baseline run records the cleartext frames per direction; mutations addressed as (direction, frame index, byte offset incl. header, substitute in {^0x01, ^0x80, 0x00, 'A'}) for EVERY offset of every cleartext frame, the end-flag byte of every frame additionally set to 9 (thorough: all 256) values and every length byte moved by +-1, " +
 		"plus an empty partial frame inserted before every frame, every frame removed, every frame split in two, adjacent partial frames merged; oracle: after the handshake calls return, every endpoint that reported success sends " +
 		"one application message and tries to read one -- no endpoint that reported success may ACCEPT an application message in a run where the relay changed a byte; the unmodified run must succeed and exchange messages both ways; " +
@@ -164,6 +164,7 @@ type outcome struct {
 	cOK, sOK         bool
 	cAccept, sAccept bool
 	cErr, sErr       error
+	cEnc, sEnc       bool // the endpoint's stream was encrypting when its handshake returned success
 	changed          bool
 	frames           [2]int
 	lens             [2][]int
@@ -183,6 +184,15 @@ func mkShape(shape string) shapeEnv {
 	case "claimtobe", "resumed", "resumed-noreply":
 		e.ccfg = kit.BaseConfig(security.SecurityRequired, security.SecurityRequired, security.AuthClaimToBe)
 		e.scfg = kit.BaseConfig(security.SecurityRequired, security.SecurityRequired, security.AuthClaimToBe)
+	case "claimtobe-optenc", "claimtobe-prefenc":
+		// nobody REQUIRES encryption, yet the handshake ends with it on (both offer a key): the statement is about
+		// every handshake that ends encrypted, whatever level asked for it
+		lvl := security.SecurityOptional
+		if shape == "claimtobe-prefenc" {
+			lvl = security.SecurityPreferred
+		}
+		e.ccfg = kit.BaseConfig(security.SecurityRequired, lvl, security.AuthClaimToBe)
+		e.scfg = kit.BaseConfig(security.SecurityRequired, security.SecurityOptional, security.AuthClaimToBe)
 	case "fs":
 		e.ccfg = kit.BaseConfig(security.SecurityRequired, security.SecurityRequired, security.AuthFS)
 		e.scfg = kit.BaseConfig(security.SecurityRequired, security.SecurityRequired, security.AuthFS)
@@ -264,7 +274,7 @@ func runCase(c Case) outcome {
 			atomic.AddInt32(&handshakesDone, 1)
 			return
 		}
-		o.cOK = true
+		o.cOK, o.cEnc = true, st.IsEncrypted()
 		atomic.AddInt32(&handshakesDone, 1)
 		o.cAccept = app(st, "client")
 	}()
@@ -278,7 +288,7 @@ func runCase(c Case) outcome {
 			atomic.AddInt32(&handshakesDone, 1)
 			return
 		}
-		o.sOK = true
+		o.sOK, o.sEnc = true, st.IsEncrypted()
 		atomic.AddInt32(&handshakesDone, 1)
 		o.sAccept = app(st, "server")
 	}()
@@ -319,6 +329,9 @@ loop:
 
 func judge(c Case, o outcome) string {
 	if c.M.Kind == "none" {
+		if o.cOK && o.sOK && (!o.cEnc || !o.sEnc) {
+			return fmt.Sprintf("the UNMODIFIED %s handshake did not end with encryption on (client %v server %v): the shape does not exercise the statement", c.Shape, o.cEnc, o.sEnc)
+		}
 		if !o.cOK || !o.sOK || !o.cAccept || !o.sAccept {
 			return fmt.Sprintf("the UNMODIFIED %s handshake did not end with both sides exchanging messages (client ok=%v accept=%v err=%v; server ok=%v accept=%v err=%v)",
 				c.Shape, o.cOK, o.cAccept, o.cErr, o.sOK, o.sAccept, o.sErr)
@@ -328,16 +341,19 @@ func judge(c Case, o outcome) string {
 	if !o.changed {
 		return ""
 	}
-	if o.cOK && o.cAccept {
+	// (the statement is about handshakes that END WITH ENCRYPTION ON: where nobody requires encryption a relay can
+	// always talk an endpoint into a cleartext session - that endpoint then has no protected frame to check, and what
+	// it reads is not covered here)
+	if o.cOK && o.cEnc && o.cAccept {
 		return fmt.Sprintf("the client reported a successful handshake and ACCEPTED an application message although the relay modified the cleartext handshake (%+v)", c.M)
 	}
-	if o.sOK && o.sAccept {
+	if o.sOK && o.sEnc && o.sAccept {
 		return fmt.Sprintf("the server reported a successful handshake and ACCEPTED an application message although the relay modified the cleartext handshake (%+v)", c.M)
 	}
 	return ""
 }
 
-var shapes = []string{"noauth", "claimtobe", "resumed", "resumed-noreply", "fs", "token"}
+var shapes = []string{"noauth", "claimtobe", "resumed", "resumed-noreply", "fs", "token", "claimtobe-optenc", "claimtobe-prefenc"}
 
 func TestC04Tamper(t *testing.T) {
 	var cases []Case
@@ -377,7 +393,7 @@ func TestC04Tamper(t *testing.T) {
 		stride := 1
 		if kit.Thorough() {
 			subs = []int{0, 1, 2, 3}
-		} else if sh == "fs" || sh == "token" || sh == "claimtobe" {
+		} else if sh == "fs" || sh == "token" || sh == "claimtobe" || sh == "claimtobe-optenc" || sh == "claimtobe-prefenc" {
 			stride = 3
 			subs = []int{0, 3}
 		}
